@@ -263,8 +263,8 @@ func addPair(w *eng.W, cl *rcells, c1 *big.Int, qx int, c2 *big.Int, qy int) {
 
 func C01(r *eng.Run) {
 	r.Rule = "bounded-exhaustive product: coefficient shapes K x K x exponent gaps G x 4 sign combinations x {Add,Sub} x 6 modes, " +
-		"plus guard/sticky decision-table drive (full-precision K + tail at every alignment), zero/cancellation identities over cohorts, " +
-		"range ends, and Add/Sub == WithMode under every DefaultRoundingMode; each result decoded by an independent BID decoder and compared (value+sign+class) " +
+		"plus every leading-digit prefix and word-threshold coefficient against a reduced alphabet at every gap, guard/sticky decision-table drive (full-precision K + tail at every alignment; tails = guard digit x sticky patterns incl. a single non-zero digit at each later position), zero/cancellation identities over cohorts, " +
+		"range ends, Add/Sub == WithMode under every DefaultRoundingMode, and an explicit-state closure over Add/Sub/Mul/Quo sequences (depth 2 quick / 3 thorough, dedupe on bits, every transition judged from its real source state); each result decoded by an independent BID decoder and compared (value+sign+class) " +
 		"with exact big-integer sum rounded by the specification. A cell = (op, mode, result sign, guard class, sticky, kept-digit parity, event) computed on the oracle side; " +
 		"non-trivial = the exact result was not representable or hit a special rule (cancel/overflow/subnormal/seam/carry)."
 	r.Assumptions = []string{"binary codec is the identity on bits (checked at start; decided by C12)",
